@@ -59,6 +59,9 @@ ROTATION real: frappy.logging.LogfileHandler (mlzlog.LogfileHandler) doRollover 
          rollovers); thorough also: date jumps of 2 days, a second doRollover on the same day, and the production path
          (the rollover triggered by emit at midnight instead of a direct call).
          One record is written before the first rollover (mlzlog's doRollover needs an open stream) and one after each.
+         Without foreign entries every directory is also run with modification times that disagree with the dates in the
+         file names (reversed order; all later than anything the handler writes - files restored from a backup or
+         touched later): "newest" means the newest log date.
   sub-check `records`: record histories through the production path only (handler.emit on the virtual clock decides
          when to roll over): every sequence of 2 (thorough: 3) steps (gap of 1, 2 or 3 days, then 1, 2 or 3 records)
          x max_days 0..7 x start directories (empty, every window day, every second day; thorough: 3 more) x foreign
@@ -404,11 +407,16 @@ def probe(part, rig, state, case, after, actor, records=RECORDS):
     """emit every (module, level) and compare all deliveries to all connections with the reference table `state`"""
     ok = True
     for m in MODS:
+        module_ok = True
         for lev, _ in records:
             op = ('emit', m, lev)
             reply, exc, msgs, text = rig.do(op)
             part.traces += 1
-            ok = judge_emit(part, state, op, exc, msgs, text, case, after, actor) and ok
+            # a problem that the ordinary levels of this module already showed is not reported again for the critical record
+            sink = core.Part() if lev == 'critical' and not module_ok else part
+            fine = judge_emit(sink, state, op, exc, msgs, text, case, after, actor)
+            module_ok = module_ok and fine
+            ok = ok and fine
     return ok
 
 
@@ -685,11 +693,13 @@ def make_record(text):
     return logging.LogRecord('node', logging.INFO, __file__, 1, text, (), None)
 
 
-def run_rotation(part, tmp, window, present, foreign, ndays, mode, serial):
+def run_rotation(part, tmp, window, present, foreign, ndays, mode, serial, mtimes='as-created'):
     """one case: directory = dated files for the window days in `present` + foreign entries; handler starts on the
     last window day with retention ndays; 3 rollovers.  mode: direct | jump2 | twice | via-emit"""
     case = {'kind': 'rotation', 'window': window, 'present': list(present), 'foreign': list(foreign), 'max_days': ndays,
             'mode': mode}
+    if mtimes != 'as-created':
+        case['mtimes'] = mtimes
     part.evaluations += 1
     part.states += 1
     if ndays and (present or foreign):
@@ -709,6 +719,15 @@ def run_rotation(part, tmp, window, present, foreign, ndays, mode, serial):
         else:
             with open(path, 'w') as f:
                 f.write('foreign\n')
+    # modification times that disagree with the dates in the names (files restored from a backup / edited later):
+    # "newest" is the newest log DATE, the file system's idea of recency does not count
+    now = realtime.time()
+    for rank, i in enumerate(present):
+        path = os.path.join(directory, f'{ROOT}-{day_name(i)}.log')
+        if mtimes == 'reversed':
+            os.utime(path, (now - 5000 - 10 * rank, now - 5000 - 10 * rank))
+        elif mtimes == 'touched-later':
+            os.utime(path, (now + 3600 + rank, now + 3600 + rank))
     today = window - 1
     VT.set_day(today)
     handler = frappy.logging.LogfileHandler(logdir, ROOT, max_days=ndays)
@@ -743,7 +762,8 @@ def run_rotation(part, tmp, window, present, foreign, ndays, mode, serial):
     finally:
         handler.close()
         shutil.rmtree(logdir, ignore_errors=True)
-    part.outcomes[f'rotation:{mode}:N={"0" if not ndays else "1" if ndays == 1 else ">1"}:' + labels[-1]] += 1
+    part.outcomes[f'rotation:{mode}:{"mtimes-" + mtimes + ":" if mtimes != "as-created" else ""}'
+                  f'N={"0" if not ndays else "1" if ndays == 1 else ">1"}:' + labels[-1]] += 1
     if part.evaluations % 499 == 1:
         part.sample({'sub': 'rotation', 'dated files (day index)': list(present), 'foreign': list(foreign), 'max_days': ndays,
                      'mode': mode, 'after each rollover': labels})
@@ -763,7 +783,8 @@ def judge_rotation(part, case, directory, before, today, ndays, step, text, exc,
     written = False
     # the same symptom with and without foreign entries in the directory are different defect classes (a handler that
     # counts every directory entry is only wrong when there are foreign entries)
-    fclass = ('with-root-prefixed-entries' if any(n in PREFIXED for n in case['foreign'])
+    fclass = ('with-mtimes-disagreeing-with-the-dates' if case.get('mtimes')
+              else 'with-root-prefixed-entries' if any(n in PREFIXED for n in case['foreign'])
               else 'with-foreign-entries' if case['foreign'] else 'plain')
     if cur in after:
         try:
@@ -941,14 +962,16 @@ def rotation_shard(shard):
         for foreign in foreigns[fchunk::ROT_CHUNKS]:
             for r in range(window + 1):
                 for present in itertools.combinations(range(window), r):
-                    serial += 1
-                    run_rotation(part, tmp, window, present, foreign, ndays, mode, serial)
+                    for mtimes in (MTIMES if not foreign and present else MTIMES[:1]):
+                        serial += 1
+                        run_rotation(part, tmp, window, present, foreign, ndays, mode, serial, mtimes)
     finally:
         shutil.rmtree(tmp, ignore_errors=True)
     return part
 
 
 ROT_CHUNKS = 4
+MTIMES = ['as-created', 'reversed', 'touched-later']     # modification times of the files found at start
 
 # ---------------------------------------------------------------------------------------------------------------
 
@@ -1079,7 +1102,7 @@ def replay(case):
         tmp = tempfile.mkdtemp(prefix='vf-c20-')
         try:
             run_rotation(part, tmp, case['window'], tuple(case['present']), tuple(case['foreign']), case['max_days'],
-                         case['mode'], 1)
+                         case['mode'], 1, case.get('mtimes', 'as-created'))
         finally:
             shutil.rmtree(tmp, ignore_errors=True)
     else:
